@@ -284,8 +284,22 @@ class _Gen:
         if not opts:
             return "1 < 2"
         c = r.choice(opts)
-        if r.random() < 0.15 and len(opts) > 1:
+        roll = r.random()
+        if roll < 0.12 and len(opts) > 1:
             c = f"{c} {r.choice(['and', 'or'])} {r.choice(opts)}"
+        elif roll < 0.24 and len(opts) > 1:
+            # nested and/or with explicit grouping, and flat chains of three
+            a, b, d = r.choice(opts), r.choice(opts), r.choice(opts)
+            c = r.choice(
+                [
+                    f"({a} or {b}) and {d}",
+                    f"{a} and ({b} or {d})",
+                    f"({a} and {b}) or {d}",
+                    f"{a} or ({b} and {d})",
+                    f"{a} and {b} and {d}",
+                    f"{a} or {b} or {d}",
+                ]
+            )
         return c
 
     # -- statements -----------------------------------------------------------
@@ -364,6 +378,11 @@ class _Gen:
         if self.ext_min(hi) < lo:
             lo = 0
             hi = E
+        tri = None
+        if r.random() < 0.15:
+            outer = [L for L in self.loops if L.hi.key() == E.key() and L.lo == 0]
+            if outer:
+                tri = r.choice(outer)
         if self.twin_budget and E.sym is not None and r.random() < 0.25:
             # unsafe twin: the upper bound may be below the lower bound
             self.twin_budget = 0
@@ -388,7 +407,15 @@ class _Gen:
         kind = "seq"
         if r.random() < self.kn.p_par:
             kind = "par"
-        self.emit(ind, f"for {v} in {kind}({lo}, {hi}):")
+        if tri is not None and tri.var != v:
+            # triangular nest: a bound of the inner loop mentions the outer iterator
+            if r.random() < 0.5:
+                self.emit(ind, f"for {v} in {kind}({tri.var}, {E}):")
+            else:
+                self.emit(ind, f"for {v} in {kind}(0, {tri.var} + 1):")
+            lo, hi = 0, E
+        else:
+            self.emit(ind, f"for {v} in {kind}({lo}, {hi}):")
         self.nstmts += 1
         self.loops.append(Loop(v, lo, hi))
         self.block(ind + 1, depth + 1, budget - 1)
